@@ -22,6 +22,25 @@ from netqasm.sdk.network import NetworkInfo
 from . import qsim
 
 
+def register_items(group):
+    """(index, value) of every register of a RegisterGroup through its public protocol (len / indexing): how the bank stores
+    its values (dict, list, ...) is none of the harness's business"""
+    return [(i, group[i]) for i in range(len(group))]
+
+
+def meas_registers_in_use(mm) -> list:
+    """names of the M registers the SDK's memory manager marks as in use, whatever the bookkeeping structure is
+    (a register -> bool dict, or a set / list of the registers in use)"""
+    used = mm._used_meas_registers
+    if isinstance(used, dict):
+        return sorted(str(r) for r, u in used.items() if u)
+    return sorted(str(r) for r in used)
+
+
+def _classical_snapshot(ex, app_id: int):
+    return ex._old_classical_snapshot(app_id)
+
+
 class Horizon(BaseException):
     """Step bound reached (passes through the executor's `except Exception`)."""
 
@@ -239,16 +258,19 @@ class SimExecutor(Executor):
 
     # ---- observation -------------------------------------------------------------------
     def classical_snapshot(self, app_id: int) -> Dict[str, Any]:
+        return _classical_snapshot(self, app_id)
+
+    def _old_classical_snapshot(self, app_id: int) -> Dict[str, Any]:
         regs = {}
         for name, group in self._registers[app_id].items():
-            for idx, v in group._register.items():
+            for idx, v in register_items(group):
                 if v is not None:
                     regs[f"{name.name}{idx}"] = v
         arrays = {str(a): list(v) for a, v in sorted(self._app_arrays[app_id]._arrays.items())}
         sh = self._shared_memories[app_id]
         sregs = {}
         for name, group in sh._registers.items():
-            for idx, v in group._register.items():
+            for idx, v in register_items(group):
                 if v is not None:
                     sregs[f"{name.name}{idx}"] = v
         sarr = {str(a): list(v) for a, v in sorted(sh._arrays._arrays.items())}
